@@ -322,7 +322,7 @@ package midix
 //@   ensures err == nil ==> forall(i, 0, len(w.set.set.list), ghost(ghostOutput, out).Events[i] <= len(w.set.set.list[i].ops))
 //@   loop 0 allocs smf.Track, []smf.Event, []smf.Track
 //@   loop 0 modifies s
-//@   loop 0 invariant 0 <= i && i < len(w.set.set.list) && s != nil && len(s.Tracks) == i
+//@   loop 0 invariant 0 <= i && i <= len(w.set.set.list) && s != nil && len(s.Tracks) == i
 //@   loop 0 invariant forall(j, 0, i, len(s.Tracks[j]) <= len(w.set.set.list[j].ops))
 //@   loop 0 decreases len(w.set.set.list) - i
 
